@@ -1,5 +1,5 @@
 """What is claimed. MANIFEST.json is generated from this (python3 lib/manifest_gen.py)."""
-HOOK_COMMITS = ["7623478"]
+HOOK_COMMITS = ["7623478", "5874428", "c122c10"]
 NOTES = (
     "Model-based verification with explicit TLA+ specifications (spec/*.tla), TLC for the models and as the "
     "evaluator of recorded real behaviour, Python drivers for replaying TLC behaviours into /repo's working tree. "
@@ -7,6 +7,18 @@ NOTES = (
     "exit 2 for machinery failures. Known findings: KNOWN_FINDINGS.txt."
 )
 ENGINES = [
+    {"name": "ErrLevel", "path": "spec/ErrLevel.tla", "serves_properties": ["C14"],
+     "kind_free_text": "four lock-step copies of the parser's error-reporting machine (one per ErrorLevel) over a common event stream; Mutate.tla generates inputs; ErrTrace.tla relates the four recorded runs"},
+    {"name": "Cursor", "path": "spec/Cursor.tla", "serves_properties": ["C05"],
+     "kind_free_text": "parser cursor with speculation and loop frames (progress argument for termination); CursorTrace.tla validates recorded cursor events; step counters from guarded hooks decide non-termination"},
+    {"name": "Quote", "path": "spec/Quote.tla", "serves_properties": ["C04"],
+     "kind_free_text": "generator Escape vs tokenizer Lex for delimited literals, parameterised by each dialect's escape configuration exported from the working tree; QuoteTrace.tla is the acceptor for generate-then-tokenize runs"},
+    {"name": "Diff", "path": "spec/Diff.tla", "serves_properties": ["C20"],
+     "kind_free_text": "ChangeDistiller bookkeeping (unmatched pools, matching set, edit script): Bijection, Partition, Accounting; DiffTrace.tla is the acceptor for recorded diffs"},
+    {"name": "SqlSem", "path": "spec/SqlSem.tla", "serves_properties": ["C06"],
+     "kind_free_text": "three-valued scalar semantics (Kleene connectives, NULL-propagating comparisons/arithmetic, BETWEEN, IN, COALESCE, CASE), CNF/DNF predicates; ExprGen.tla generates the expressions, RewriteTrace.tla is the acceptor"},
+    {"name": "RelSem", "path": "spec/RelSem.tla", "serves_properties": ["C11", "C03", "C02"],
+     "kind_free_text": "reference relational semantics (bags, outer joins, grouping and NULL-aware aggregates, DISTINCT, ORDER BY/LIMIT, set operations, correlated subqueries); QueryGen.tla generates query skeletons and databases, RelTrace.tla is the acceptor for recorded executions"},
     {"name": "Serde", "path": "spec/Serde.tla", "serves_properties": ["C12"],
      "kind_free_text": "TLA+ model of serde.dump/load (pre-order flattening with parent index, arg name, array flag; rebuild through append/set) over the node store of Ast.tla, invariant RoundTrip on every store reachable by mutation histories; SerdeTrace.tla is the acceptor for recorded round trips of real trees"},
     {"name": "Scanner", "path": "spec/Scanner.tla", "serves_properties": ["C13"],
@@ -17,6 +29,62 @@ ENGINES = [
      "kind_free_text": "TLA+ model of the mutable Expression tree (node store, every branch of set/append/replace/pop, hash cache, deepcopy); TLC exhaustive + transition emission; AstTrace.tla evaluates the invariants on recorded real trees"},
 ]
 CHECKS = {
+    "C14": {
+        "engine": "ErrLevel",
+        "design_ref": "DESIGN.md section 5, C14",
+        "technique": "TLA+ product model of the four error levels (ErrLevel.tla) checked by TLC; for TLC-generated mutated inputs the real parser/generator is run once per level with guarded hooks, and the TLA+ acceptor ErrTrace relates the four recorded runs and checks the level discipline of their event logs",
+        "text": "Model: all event streams of length <= 7-8 with nested speculation: IGNORE/WARN never raise and produce the same, RAISE raises iff WARN logged with exactly the collected errors, IMMEDIATE raises the first, levels are restored after _try_parse; two negative controls. Conformance: ~3*10^3 parse quadruples (valid statements, token mutations, 3-statement scripts, a complete soft-keyword sweep, a sweep over dialect-specific statements; max_errors 1..3) and ~2*10^3 generation quadruples (incl. sequences on reused Generator objects, max_unsupported 1..3) per quick run.",
+        "note": "Trusted: the reading of WARN's log records from the 'sqlglot' logger, error identity (description, line, col). Cases where any run leaks an internal exception are C05's subject and skipped here.",
+    },
+    "C05": {
+        "engine": "Cursor",
+        "design_ref": "DESIGN.md section 5, C05",
+        "technique": "TLA+ cursor/frames model (progress argument, 2 negative controls) checked by TLC; TLC-generated mutations executed under deterministic step budgets from the guarded hooks; recorded cursor events validated by the TLA+ acceptor CursorTrace; exception class and work growth judged per input",
+        "text": "Every input of a fixed space (valid statements, ~9*10^3 TLC-generated single/double mutations and scripts, soft-keyword sweep, truncated prefixes, a complete insert/delete/truncate sweep over dialect-specific statements, 18 pumped families at k = 4..32) x dialects x 4 error levels x target dialects is tokenized, parsed and generated under step budgets (tokenizer, parser incl. node constructions, generator): the outcome must be a value or a sqlglot error, budgets must hold, work along pumped families must not grow faster than cubic, and the outer parser's cursor events must stay in range and retreat only to visited positions.",
+        "note": "The unchanged tree leaks ~45 internal exception sites on malformed input (listed findings keyed by phase, exception class and innermost sqlglot frame) - the space is fixed and triaged, the seed picks a half. Two non-termination defects found by the budgets were repaired (NOT constraint double retreat, COPY parameter loop).",
+    },
+    "C04": {
+        "engine": "Quote",
+        "design_ref": "DESIGN.md section 5, C04",
+        "technique": "TLA+ model Escape/Lex (Quote.tla) instantiated with every distinct dialect configuration exported from the working tree and checked by TLC; builder-API values generated and tokenized by the real code, validated by the TLA+ acceptor QuoteTrace",
+        "text": "RoundTrip is model-checked for all values of length <= 3-4 over 6 character classes per distinct escape configuration (5 today). Conformance: all values of length <= 2 (all dialects) / <= 3 (rotating quarter, all in thorough) over the dialect's delimiters, backslash, LF, CR, NUL, comment markers, $, brackets, backtick, %, tab, a non-ASCII letter, plus injection-shaped values and the line-break sentinel, as string literal, exp.convert value, quoted identifier, comment and literal-after-raw-string, with pretty/identify on and off: ~1.2*10^5 generate-then-tokenize cases per quick run judged by TLC.",
+        "note": "Three listed findings (Athena backslash strings, ClickHouse identifiers with backslash, the sentinel text under pretty). Byte/national literals are only exercised as the 'raw string first' context.",
+    },
+    "C20": {
+        "engine": "Diff",
+        "design_ref": "DESIGN.md section 5, C20",
+        "technique": "TLA+ bookkeeping model of ChangeDistiller (Diff.tla, 2 negative controls) checked by TLC; recorded real diffs of edited/independent/equal tree pairs validated by the TLA+ acceptor DiffTrace (accounting, same-type pairing, empty-delta-iff-equal decided on structural projections, frame of both inputs)",
+        "text": "A fixed space of 9000 (source, edit, options) combinations over corpus, probe and similar-column statements (16 edit kinds incl. identifier/alias-column/CTE renames, insert/delete/move, wrap, two edits, independent trees, copies) x delta_only x matchings {none, root pair, corresponding leaf pair, cross leaf pair}; a third per quick run.",
+        "note": "One listed finding (a pre-matched leaf pair is not counted among its parents' common leaves). Tree equality is decided by TLC on projections that apply the normalisations of Expression.__hash__.",
+    },
+    "C06": {
+        "engine": "SqlSem",
+        "design_ref": "DESIGN.md section 5, C06",
+        "technique": "TLA+ three-valued semantics (SqlSem.tla); TLC enumerates expressions (ExprGen.tla); real simplify/normalize runs are recorded with the guarded rule observer and every (before, after) pair is validated by TLC under every assignment (RewriteTrace.tla)",
+        "text": "TLC enumerates all depth-1 boolean expressions, every atom-vs-depth-2 connector tree and seeded samples of depth 2-3 expressions over integer/boolean/NOT NULL columns; each is rendered with minimal or full parentheses, typed or untyped, under the dialect flags, and run through simplify (with and without coalesce_simplification) and normalize (CNF/DNF, default and tightest distance budgets). TLC evaluates input and output, the re-parsed output text, and every changed rule application reported by the hook under every assignment over NULL and all order-relevant integers, and checks the normal-form clause. ~4-6*10^4 obligations per quick run, 4*10^5 thorough.",
+        "note": "Trusted: term<->SQL<->tree conversions in props/c06.py. 'Unchanged input' is read modulo normalize's documented BETWEEN expansion. The unchanged tree folds contradictory ranges to FALSE for NULL operands (listed findings); the explored space is fixed and triaged, VERIF_SEED selects one of five generator seeds.",
+    },
+    "C11": {
+        "engine": "RelSem",
+        "design_ref": "DESIGN.md section 5, C11",
+        "technique": "TLA+ reference relational semantics (RelSem.tla) calibrated against DuckDB and SQLite; TLC-generated queries and databases; executor results validated by the TLA+ acceptor RelTrace against the engines",
+        "text": "Four completely enumerated skeleton sub-spaces (joins of all kinds x predicates; subqueries; join-elimination shapes; set operations) plus a TLC-sampled product of all clause features, over fixed and TLC-sampled small databases with NULLs, duplicates and empty tables: each (query, db) runs on DuckDB, SQLite and sqlglot's executor; TLC compares bags/sequences and names, and evaluates RelSem.Sem on the same term (0 disagreements with the engines on ~1.5*10^4 cases per quick run).",
+        "note": "Engine oracle: a case is conclusive only when DuckDB and SQLite agree. Integer columns only. The unchanged executor has listed findings (aggregates over joins with same-named columns / unmatched rows, NULLS FIRST under DISTINCT+LIMIT); keys are minimal shapes found by delta-minimisation; fixed space, the seed picks a slice.",
+    },
+    "C03": {
+        "engine": "RelSem",
+        "design_ref": "DESIGN.md section 5, C03",
+        "technique": "TLC-generated queries/databases; the rule pipeline is stepped on the real optimizer, every distinct intermediate text is executed on DuckDB and the TLA+ acceptor RelTrace compares each result with the original's; RelSem.Sem calibrates generator and renderer",
+        "text": "For every generated query (same spaces as C11) the original text, the text after each prefix of RULES and after qualify + each single rule are executed on DuckDB over 5-8 databases; TLC compares rows (bag; sequence under total ORDER BY) and column names and attributes a difference to the first rule whose step changes the result; the key of a violation is the rule plus the delta-minimised query shape.",
+        "note": "Engine oracle (DuckDB, one thread). One listed finding (eliminate_joins treats LIMIT 1 as exactly one row; pinned by a repository fixture). Two optimizer defects found here were repaired (FULL JOIN pushdown, grouped aggregate treated as single row).",
+    },
+    "C02": {
+        "engine": "RelSem",
+        "design_ref": "DESIGN.md section 5, C02",
+        "technique": "TLC-generated queries of the transpilation fragment and databases; source text on the source engine vs sqlglot.transpile output on the target engine for 4 dialect pairs; results validated by the TLA+ acceptor RelTrace",
+        "text": "Every scalar expression of the fragment (division variants, %, ||, IFNULL/COALESCE/NULLIF/CASE, parenthesisation, NOT IN, BETWEEN, casts) x ordering variants, and ordering (asc/desc x NULLS none/first/last) x LIMIT/OFFSET x join x where x DISTINCT x QUALIFY/DISTINCT ON/SEMI/ANTI (DuckDB source), for SQLite->DuckDB, DuckDB->SQLite and both identity directions, on real sqlite3 and duckdb; TLC compares row sequences/bags and names.",
+        "note": "Engine oracle; numeric values compared by value. strftime-style formats are not generated (no timestamp columns) - that clause of the property is not covered. Listed findings: untyped integer division SQLite->DuckDB, SQLite's implicit text-to-number coercion.",
+    },
     "C09": {
         "engine": "Ast",
         "design_ref": "DESIGN.md section 5, C09",
